@@ -57,6 +57,9 @@ type strEval struct {
 	why     []string // reasons for giving up
 	loadVal map[*ssa.UnOp][]string
 	busy    map[strKey]bool
+	// liveEdge, when set, restricts evaluation to a cut CFG: a phi edge coming from a
+	// predecessor that is unreachable (or over a removed edge) contributes nothing.
+	liveEdge func(pred, blk *ssa.BasicBlock) bool
 }
 
 type synthBinding struct {
@@ -123,7 +126,10 @@ func (e *strEval) eval(v ssa.Value, fr *frame) ([]string, bool) {
 		return []string{x.Value.ExactString()}, true
 	case *ssa.Phi:
 		var out []string
-		for _, ed := range x.Edges {
+		for i, ed := range x.Edges {
+			if e.liveEdge != nil && fr.caller == nil && i < len(x.Block().Preds) && !e.liveEdge(x.Block().Preds[i], x.Block()) {
+				continue
+			}
 			s, ok := e.eval(ed, fr)
 			if !ok {
 				return nil, false
@@ -420,10 +426,13 @@ func singleStore(al *ssa.Alloc) *ssa.Store {
 					}
 				}
 			case ssa.CallInstruction:
-				// address passed to a call: may be written
-				for _, a := range r.Common().Args {
+				// address passed to a call: may be written, unless the callee provably only reads through it
+				for i, a := range r.Common().Args {
 					if a == v {
-						n += 2
+						callee := r.Common().StaticCallee()
+						if callee == nil || r.Common().IsInvoke() || paramWritten(callee, i, 0) {
+							n += 2
+						}
 					}
 				}
 			}
@@ -606,4 +615,104 @@ func (e *strEval) analyzeCell(fr *frame, cell ssa.Value, init []string, hasInit 
 		}
 	}
 	return uniq(exit), ok
+}
+
+// paramWritten reports (conservatively) whether function fn may store through its i-th
+// pointer parameter.
+func paramWritten(fn *ssa.Function, i int, depth int) bool {
+	if fn == nil || len(fn.Blocks) == 0 || i >= len(fn.Params) || depth > 3 {
+		return true
+	}
+	return pointerWritten(fn.Params[i], depth, map[ssa.Value]bool{})
+}
+
+// pointerWritten: may a store happen through pointer value p (or copies of it)?
+func pointerWritten(p ssa.Value, depth int, seen map[ssa.Value]bool) bool {
+	if seen[p] {
+		return false
+	}
+	seen[p] = true
+	refs := p.Referrers()
+	if refs == nil {
+		return false
+	}
+	for _, ref := range *refs {
+		switch r := ref.(type) {
+		case *ssa.Store:
+			if r.Addr == p {
+				return true
+			}
+			// the pointer itself is stored somewhere (e.g. into a capture cell): follow loads of that cell
+			if al, ok := r.Addr.(*ssa.Alloc); ok {
+				if cellPointerWritten(al, depth, seen) {
+					return true
+				}
+			} else {
+				return true
+			}
+		case *ssa.UnOp: // load through the pointer: a read
+		case *ssa.FieldAddr, *ssa.IndexAddr:
+			if pointerWritten(r.(ssa.Value), depth, seen) {
+				return true
+			}
+		case *ssa.Phi:
+			if pointerWritten(r, depth, seen) {
+				return true
+			}
+		case *ssa.MakeInterface, *ssa.ChangeType, *ssa.Convert:
+			if pointerWritten(r.(ssa.Value), depth, seen) {
+				return true
+			}
+		case *ssa.MakeClosure:
+			return true
+		case ssa.CallInstruction:
+			for j, a := range r.Common().Args {
+				if a == p {
+					callee := r.Common().StaticCallee()
+					if callee == nil || r.Common().IsInvoke() || paramWritten(callee, j, depth+1) {
+						return true
+					}
+				}
+			}
+		case *ssa.BinOp, *ssa.If, *ssa.DebugRef:
+		default:
+			return true
+		}
+	}
+	return false
+}
+
+// cellPointerWritten: al is a cell holding a pointer (typically a captured parameter);
+// is any pointer loaded from it written through?
+func cellPointerWritten(al ssa.Value, depth int, seen map[ssa.Value]bool) bool {
+	if seen[al] {
+		return false
+	}
+	seen[al] = true
+	refs := al.Referrers()
+	if refs == nil {
+		return false
+	}
+	for _, ref := range *refs {
+		switch r := ref.(type) {
+		case *ssa.UnOp:
+			if pointerWritten(r, depth, seen) {
+				return true
+			}
+		case *ssa.Store:
+		case *ssa.MakeClosure:
+			fn := r.Fn.(*ssa.Function)
+			for i, b := range r.Bindings {
+				if b == al && i < len(fn.FreeVars) {
+					if cellPointerWritten(fn.FreeVars[i], depth, seen) {
+						return true
+					}
+				}
+			}
+		case *ssa.DebugRef:
+		default:
+			return true
+		}
+	}
+	return false
 }
